@@ -70,6 +70,7 @@ type Run struct {
 	dist     map[string]int
 	samples  []string
 	ioFails  int
+	perSig   map[string]int
 	extra    map[string]interface{}
 }
 
@@ -186,7 +187,13 @@ func (r *Run) IOFail(sig, input, detail string) {
 	r.mu.Lock()
 	defer r.mu.Unlock()
 	r.ioFails++
-	if r.ioFails > 200 {
+	// keep at most 6 witnesses per signature (and 600 records in all), so that a frequent (e.g. known) finding
+	// cannot crowd a new one out of the record
+	if r.perSig == nil {
+		r.perSig = map[string]int{}
+	}
+	r.perSig[sig]++
+	if r.perSig[sig] > 6 || len(r.perSig) > 100 && r.perSig[sig] > 1 || r.ioFails > 100000 {
 		return
 	}
 	b, _ := json.Marshal(map[string]string{"sig": sig, "input": input, "detail": detail})
